@@ -500,16 +500,14 @@ Lemma write_place_slice1 p img i o nb st x :
   = write_place p img (PlBools i o nb st) None None (RBool x).
 Proof. reflexivity. Qed.
 
-(* it is right when the item is True (the list's truthiness and the item agree) — exactly the
-   complement of the refuted class (Proofs/WriteFull.stmt_bool_slice1_refuted) *)
-Theorem write_correct_bool_slice1 : stmt_bool_slice1 negb.
+(* any item: the packet's set_bit unwraps the one-item list (pycomm3 4698d97) *)
+Theorem write_correct_bool_slice1 : stmt_bool_slice1.
 Proof.
-  unfold stmt_bool_slice1. intros p m r inst off nbits start x m_ref img Hx Hres Hbit Hcnt Hmem Hok Hs0 Hoff Hin Hw.
-  destruct x; [|discriminate].
+  unfold stmt_bool_slice1. intros p m r inst off nbits start x m_ref img Hres Hbit Hcnt Hmem Hok Hs0 Hoff Hin Hw.
   set (r' := mkReq (r_prog r) (r_segs r) (r_bit r) None).
   assert (Hres' : resolve p r' = Some (PlBools inst off nbits start)) by exact Hres.
-  assert (Hw' : ref_write p m r' (RBool (truthy (PList [PBool true]))) = Some m_ref).
+  assert (Hw' : ref_write p m r' (RBool (truthy (PBool x))) = Some m_ref).
   { unfold ref_write in *. rewrite Hres'. rewrite Hres in Hw. cbn [place_inst] in *. rewrite Hmem in *.
-    cbn [r_bit r_count r']. rewrite Hcnt in Hw. rewrite Hbit in Hw |- *. rewrite write_place_slice1 in Hw. exact Hw. }
-  exact (write_correct_bool_element p m r' inst off nbits start (PList [PBool true]) m_ref img Hres' Hbit eq_refl Hmem Hok Hs0 Hoff Hin Hw').
+    cbn [r_bit r_count r' truthy]. rewrite Hcnt in Hw. rewrite Hbit in Hw |- *. rewrite write_place_slice1 in Hw. exact Hw. }
+  exact (write_correct_bool_element p m r' inst off nbits start (PBool x) m_ref img Hres' Hbit eq_refl Hmem Hok Hs0 Hoff Hin Hw').
 Qed.
